@@ -6,6 +6,8 @@ values are removed, not stored; the DEFtype purge keys on the right characters.
 Does not decide injectivity of the string key encoding over all names/subscripts."""
 import re
 
+from rules import lextables as lt
+
 from rules import tables
 
 VAL = "mach::val::Val"
@@ -269,13 +271,25 @@ def rule_f(ctx, cr):
     ctx.touch(d)
     for cl in cr.closures_of(d.path):
         ctx.touch(cl)
+        # a key is typed by its suffix only when it ENDS in one of the four suffix characters;
+        # a character-class test (not alphabetic) also keeps names ending in a digit (A1), which
+        # are typed by their first letter
+        text = " ".join(cl.describe(a) for c in cl.calls() for a in c.args)
+        text += " ".join(str(ch) for ch, _b, _d, _s, _o in lt.char_consts(cl))
+        four = all(("'%s'" % ch) in text or ch in text for ch in "$!#%")
+        klass = [c.span["line"] for c in cl.calls()
+                 if re.search(r"is_ascii_(alphabetic|alphanumeric|digit|punctuation)$|"
+                              r"char::methods::<impl char>::is_(alphabetic|alphanumeric)$",
+                              c.callee or c.name)]
+        ends = [c for c in cl.calls() if re.search(r"<impl str>::ends_with$|::last$", c.callee or c.name)]
+        ctx.check(four and not klass and bool(ends), "C06.f",
+                  "def-closure/suffix-is-one-of-four", cl.span,
+                  "the purge skips exactly the keys that end in $ ! # %",
+                  "the DEFtype purge decides `typed by suffix` with a character class test instead "
+                  "of the four suffix characters: a name ending in a digit (A1) is skipped, so "
+                  "after DEFINT A the Integer variable A1 still holds its Single value")
         for i, c in enumerate(cl.calls(), 1):
             nm = c.callee or ""
-            if nm.endswith("is_ascii_alphabetic"):
-                names = cl.back_slice_calls(c.args[0])
-                ctx.check(any(n.endswith("::last") for n in names), "C06.f",
-                          "def-closure/suffix-test-on-last-char", c.span,
-                          "the suffix test looks at the key's last character")
             if re.search(r"Range(Inclusive)?::<Idx>::contains$|PartialOrd", nm) and \
                     "VarType" not in nm:
                 names = set()
